@@ -48,7 +48,7 @@ def cases(tier, rng, run):
         for kind, style in (("func", rng.choice(["pos", "kw"])), ("nt", rng.choice(["pos", "kw", "kwrev"])), ("dc", rng.choice(["pos", "kw", "kwrev", "inherit", "inherit2"])), ("pyd", rng.choice(["kw", "kwrev"]))):
             out.append(Case(c.call_line(kind, style) + alias, kind, {"group": gi, "ctx": c}))
     gi = n
-    for c in gen_ctx.rebinding_contexts(with_provider=False):
+    for c in gen_ctx.rebinding_contexts(with_provider=False) + gen_ctx.group_contexts():
         gi += 1
         for kind, style in (("func", "pos"), ("nt", "kw"), ("dc", "pos"), ("pyd", "kw")):
             out.append(Case(c.call_line(kind, style), kind, {"group": gi, "ctx": c}))
